@@ -41,7 +41,7 @@ def make_sub(ctx, src, which, fixed_idx, method=False, dense=False):
     else:
         U = [(), (labs[0],), (labs[0], labs[1]), (labs[1], labs[2])] + ([tuple(labs)] if not deg2 else [(labs[2],)])
     if src == 'dict':
-        U = U + [(labs[1], labs[0])]
+        U = U + [(labs[1], labs[0]), (labs[0], labs[0]), (labs[1], labs[2], labs[1])]       # unsorted and repeated labels (raw dict)
     cs = {k: ctx.real_var('c%d' % i) for i, k in enumerate(U)}
     v0 = ctx.real_var('v0')
     fixed = [labs[i] for i in fixed_idx]
